@@ -38,11 +38,11 @@ def build(ctx, tier="quick", constraints=True, set_null=True, normalize_names=Fa
         if style and not all_name_styles:
             i = {"plain": 0, "dq": 1, "bt": 2, "br": 3}[style]
             return [[cls,
-                     lm.custom(f'"{cls.name}"', [f'"{e}"' for e in ex[:3]] + [f'"{ex[0]} x"'], "DQ"),
+                     lm.custom(f'"{cls.name}"', [f'"{e}"' for e in ex[:3]] + [f'"{ex[0]} x"', f'"{ex[1]}.v2"'], "DQ"),
                      lm.custom(f"`{cls.name}`", [f"`{e}`" for e in ex[:4]], "BT"),
                      lm.custom(f"[{cls.name}]", [f"[{e}]" for e in ex[:4]], "BR")][i]]
         return [cls,
-                lm.custom(f'"{cls.name}"', [f'"{e}"' for e in ex[:3]] + [f'"{ex[0]} x"'], "DQ"),
+                lm.custom(f'"{cls.name}"', [f'"{e}"' for e in ex[:3]] + [f'"{ex[0]} x"', f'"{ex[1]}.v2"'], "DQ"),
                 lm.custom(f"`{cls.name}`", [f"`{e}`" for e in ex[:4]], "BT"),
                 lm.custom(f"[{cls.name}]", [f"[{e}]" for e in ex[:4]], "BR")]
 
